@@ -41,8 +41,9 @@ def finish (s : LState) (p : Pending) : LState × String :=
     else ((step s (.complete p.ch p.gen false)).1, "failed")
 
 def stepLine (st : St) (line : String) : St × String :=
-  if st.s.closed ∧ (words line).head? ≠ some "reset" then (st, "dead") else
+  if st.s.closed ∧ (words line).head? ≠ some "reset" ∧ (words line).head? ≠ some "slow" then (st, "dead") else
   match words line with
+  | "slow" :: _ => ({}, "skip")
   | "reset" :: rest =>
     match kvNat rest "limit", kvNat rest "maxlen" with
     | some l, some m => ({ s := { limit := l, maxLen := m }, pending := [] }, "reset")
